@@ -539,11 +539,11 @@ if npts is not None:
         self.xxi, self.wii = gauleg(-1.0, 1.0, self.npts)
 """, "QGauss.setup")
     _same(_nodoc(_func(tree, "QGauss", "integrate").body), """
-if isinstance(yvals_or_func, (FunctionType, MethodType)):
+if callable(yvals_or_func):
     return self.integrate_func(xvals, yvals_or_func, npts)
 else:
     return self.integrate_data(xvals, yvals_or_func, npts)
-""", "QGauss.integrate")
+""", "QGauss.integrate (dispatch on callable(): the repaired form)")
 
     # ---- QGauss.integrate_func
     f = _nodoc(_func(tree, "QGauss", "integrate_func").body)
@@ -554,9 +554,9 @@ if self.npts is None:
     raise ValueError("Set npts on construction or in this call")
 if len(xvals) != 2:
     raise ValueError("When integrating a function, send the " "x range [xmin,xmax] ")
-x1 = xvals[0]
-x2 = xvals[1]
-""", "QGauss.integrate_func (prologue)")
+x1 = float(xvals[0])
+x2 = float(xvals[1])
+""", "QGauss.integrate_func (prologue; range ends converted to python floats)")
     fdef("f1_of", ["x1", "x2"], {"x1": "x1", "x2": "x2"}, _assign_value(f[5], "f1"), "f1_of")
     fdef("f2_of", ["x1", "x2"], {"x1": "x1", "x2": "x2"}, _assign_value(f[6], "f2"), "f2_of")
     fdef("xi_of", ["xxi", "f1", "f2"], {"self.xxi": "xxi", "f1": "f1", "f2": "f2"}, _assign_value(f[7], "xi"), "xi_of")
@@ -568,14 +568,17 @@ x2 = xvals[1]
 
     # ---- QGauss.integrate_data
     d = _nodoc(_func(tree, "QGauss", "integrate_data").body)
-    _expect(len(d) == 11, "QGauss.integrate_data has 11 statements (found %d)" % len(d))
-    _same(d[:4], """
+    _expect(len(d) == 13, "QGauss.integrate_data has 13 statements (found %d)" % len(d))
+    _same(d[:6], """
 self.setup(npts=npts)
 if self.npts is None:
     raise ValueError("Set npts on construction or in this call")
+xvals = numpy.asarray(xvals, dtype="f8")
+yvals = numpy.asarray(yvals, dtype="f8")
 x1 = xvals.min()
 x2 = xvals.max()
-""", "QGauss.integrate_data (prologue)")
+""", "QGauss.integrate_data (prologue; tables converted to float64)")
+    d = d[:4] + d[6:]
     fdef("data_f1_of", ["x1", "x2"], {"x1": "x1", "x2": "x2"}, _assign_value(d[4], "f1"), "f1_of")
     fdef("data_f2_of", ["x1", "x2"], {"x1": "x1", "x2": "x2"}, _assign_value(d[5], "f2"), "f2_of")
     fdef("data_xi_of", ["xxi", "f1", "f2"], {"self.xxi": "xxi", "f1": "f1", "f2": "f2"}, _assign_value(d[6], "xi"), "xi_of")
@@ -615,11 +618,11 @@ self.xgrid, self.ygrid = meshgrid(x, y)
     _same(q[:5], """
 if len(xrng) != 2 or len(yrng) != 2:
     raise ValueError("xrng and yrng should be 2-element")
-x1 = xrng[0]
-x2 = xrng[1]
-y1 = yrng[0]
-y2 = yrng[1]
-""", "QGauss2.integrate_func (prologue)")
+x1 = float(xrng[0])
+x2 = float(xrng[1])
+y1 = float(yrng[0])
+y2 = float(yrng[1])
+""", "QGauss2.integrate_func (prologue; range ends converted to python floats)")
     fdef("xf1_of", ["x1", "x2"], {"x1": "x1", "x2": "x2"}, _assign_value(q[5], "xf1"), "xf1_of")
     fdef("xf2_of", ["x1", "x2"], {"x1": "x1", "x2": "x2"}, _assign_value(q[6], "xf2"), "xf2_of")
     fdef("yf1_of", ["x1", "x2"], {"y1": "x1", "y2": "x2"}, _assign_value(q[7], "yf1"), "xf1_of")
